@@ -292,6 +292,17 @@ impl Outcome {
 }
 
 /// Call the library analysis for the problem (unguarded).
+/// The RBF object to hand to the library for interfering task `i`: the task under analysis' object or an
+/// earlier interfering task's object if the models are identical, else its own.
+fn shared_rbf<'a>(p: &UniProblem, i: usize, tua_rbf: &'a BoxRbf, rbfs: &'a [BoxRbf]) -> &'a BoxRbf {
+    let same = |a: &TaskP, b: &TaskP| a.arr == b.arr && a.cost == b.cost;
+    if same(&p.others[i], &p.tua) {
+        return tua_rbf;
+    }
+    let k = (0..=i).find(|k| same(&p.others[*k], &p.others[i])).unwrap();
+    &rbfs[k]
+}
+
 pub fn call_lib(p: &UniProblem) -> SearchResult {
     let limit = d(p.limit);
     match (p.policy, p.pre) {
@@ -345,11 +356,13 @@ pub fn call_lib(p: &UniProblem) -> SearchResult {
                 let tua_rbf = build_rbf(&p.tua);
                 let rbfs: Vec<BoxRbf> = p.others.iter().map(build_rbf).collect();
                 let tua = edf::fully_preemptive::Task { rbf: &tua_rbf, deadline: d(p.tua.deadline) };
+                // tasks with identical models share one RBF OBJECT (also with the task under analysis): a twin
+                // task is a task of its own all the same
                 let others: Vec<_> = p
                     .others
                     .iter()
-                    .zip(rbfs.iter())
-                    .map(|(t, r)| edf::fully_preemptive::Task { rbf: r, deadline: d(t.deadline) })
+                    .enumerate()
+                    .map(|(i, t)| edf::fully_preemptive::Task { rbf: shared_rbf(p, i, &tua_rbf, &rbfs), deadline: d(t.deadline) })
                     .collect();
                 edf::fully_preemptive::dedicated_uniproc_rta(&tua, &others, limit)
             }
@@ -360,9 +373,9 @@ pub fn call_lib(p: &UniProblem) -> SearchResult {
                 let others: Vec<_> = p
                     .others
                     .iter()
-                    .zip(rbfs.iter())
-                    .map(|(t, r)| edf::floating_nonpreemptive::InterferingTask {
-                        rbf: r,
+                    .enumerate()
+                    .map(|(i, t)| edf::floating_nonpreemptive::InterferingTask {
+                        rbf: shared_rbf(p, i, &tua_rbf, &rbfs),
                         deadline: d(t.deadline),
                         max_np_segment: s(t.max_np),
                     })
